@@ -1,26 +1,30 @@
-"""C08 / C05 (NARROWED: the per-iteration protocol of the sort-merge join, not the merge itself) —
-JoinLocalSortMerge::{discard_right, next} (src/operator/join/local_sort_merge.rs).
+"""C08 / C05 (NARROWED: soundness of the merge and the per-iteration protocol; completeness of the merge is not decided) —
+JoinLocalSortMerge::{discard_right, advance, next} (src/operator/join/local_sort_merge.rs).
 discard_right: removes exactly the last (largest) right element and emits it once padded with None iff the join is outer on the
-right and the element's key is not the key of the last left element processed.  next: elements of a side are stored on that side
-with the key the side's keyer computes; each side is sorted when its end marker arrives; tuples are produced only once BOTH sides
-have ended; the oldest buffered tuple is served first; at FlushAndRestart both sides and the buffer are empty and the operator is
-back in its constructor state (nothing - in particular not `last_left_key` - is carried over into the next iteration)."""
+right and the element's key is not the key of the last left element processed.  advance (the merge loop, now VERIFIED on its real
+body): it only consumes the two sorted sides from the top and only appends tuples; every tuple it appends is built from elements
+of the two sides carrying the tuple's key - a matched pair joins a left and a right element with EQUAL keys - or is an element
+padded with None, which happens only for the outer variants; it stops with an empty buffer only when both sides are exhausted.
+next: elements of a side are stored on that side with the key the side's keyer computes; each side is sorted when its end marker
+arrives; tuples are produced only once BOTH sides have ended; the oldest buffered tuple is served first; at FlushAndRestart both
+sides and the buffer are empty and the operator is back in its constructor state (nothing - in particular not `last_left_key` -
+is carried over into the next iteration)."""
 import os, re, sys
 sys.path.insert(0, os.path.dirname(os.path.dirname(__file__)))
 import std_specs as S
-from engine.rsx import sha as rsx_sha
-ADVANCE_SHA = '4eaca8289c75d324'
 
 PROPERTIES = ["C08", "C05"]
-MIN_VERIFIED = 4
+MIN_VERIFIED = 6
 F = 'src/operator/join/local_sort_merge.rs'
 FJ = 'src/operator/join/mod.rs'
 FO = 'src/operator/mod.rs'
 FBIN = 'src/operator/start/binary.rs'
 ASSUMPTIONS = [
-    "JoinLocalSortMerge::advance (the merge loop: iter().rev().take_while() chains over generic Ord keys) is NOT verified: it is used through an ASSUMED contract (frame: only left / right / buffer / last_left_key change; it returns with an empty buffer only when both sides are exhausted). That the merge emits exactly the relational join is NOT decided here",
+    "COMPLETENESS of the merge is NOT decided: that every pair of equal keys is emitted and every unmatched element of an outer side is padded exactly once relies on the sortedness of the two sides and on the descending scan; the contract of `advance` pins soundness (no tuple that is not a same-key pair / a padded element of an outer variant built from this iteration's elements), consumption from the top only, and the exit condition. A mutant that silently pops a right element inside the merge loop is NOT rejected",
+    "V-ITER / V-PAT templates for `advance` (predicates and the mapped expression verbatim): `X.iter().rev().take_while(|(a, _)| P).count()` -> loop counting from the last element while P holds; `for _ in 0..n { S }` -> while loop; `matches!(X.last(), Some((a, _)) if P)` -> match on the last element; `X.iter().rev().take_while(|(a, _)| P).map(|(_, b)| { E })` + `Q.extend(..)` -> loop from the last element while P holds, pushing E",
+    "Clone of a key / value yields an equal value (axiom_data_clone)",
     "Key equality (`==` on &Key) is spec equality (vstd obeys_eq_spec + eq_spec == spec equality: assumed for the user's key type)",
-    "`sort_unstable_by(|(k1, _), (k2, _)| k1.cmp(k2))` -> contracted stub sort_by_key: the result is a permutation of the input (multiset equality); sortedness is only needed by the unverified merge",
+    "`sort_unstable_by(|(k1, _), (k2, _)| k1.cmp(k2))` -> contracted stub sort_by_key: the result is a permutation of the input (multiset equality); sortedness is only needed for the completeness of the merge (not decided)",
     "R-PROTO-BIN (environment): the two-input start delivers no timestamped elements / watermarks (the operator panics on them by design) and FlushAndRestart only after both side end markers (the asserts at FlushAndRestart on left_ended / right_ended are obligations under this protocol)",
     "the keyers are total functions (KeyerFn model trait)",
     "termination of next() is not verified",
@@ -65,21 +69,44 @@ impl<Key: Data + Ord, Out1: ExchangeData, Out2: ExchangeData, Keyer1: KeyerFn<Ke
     spec fn inv(&self) -> bool {
         &&& (!(self.left_ended && self.right_ended) ==> self.buffer@.len() == 0 && self.last_left_key is None)
     }
+    // every tuple from index `from` on is a matched pair or a padded element of an outer variant
+    spec fn tuples_ok(buf: Seq<(Key, OuterJoinTuple<Out1, Out2>)>, from: int, v: JoinVariant, l0: Seq<(Key, Out1)>, r0: Seq<(Key, Out2)>) -> bool {
+        forall|t: int| from <= t < buf.len() ==>
+            ((#[trigger] buf[t]).1.0 is Some || buf[t].1.1 is Some)
+            && (buf[t].1.0 is None ==> v is Outer)
+            && (buf[t].1.1 is None ==> (v is Left || v is Outer))
+            && Self::from_inputs(buf[t], l0, r0)
+    }
+    // the tuple is built from elements of the two sorted sides, and both carry the tuple's key
+    spec fn from_inputs(t: (Key, OuterJoinTuple<Out1, Out2>), l0: Seq<(Key, Out1)>, r0: Seq<(Key, Out2)>) -> bool {
+        &&& (t.1.0 matches Some(l) ==> exists|i: int| 0 <= i < l0.len() && #[trigger] l0[i] == (t.0, l))
+        &&& (t.1.1 matches Some(r) ==> exists|j: int| 0 <= j < r0.len() && #[trigger] r0[j] == (t.0, r))
+    }
     // the constructor state (apart from prev / keyers / variant)
     spec fn fresh(&self) -> bool {
         !self.left_ended && !self.right_ended && self.left@.len() == 0 && self.right@.len() == 0 && self.buffer@.len() == 0 && self.last_left_key is None
     }
-    // ASSUMED contract of the unverified merge loop
-    #[verifier::external_body]
-    fn advance(&mut self)
+}
+'''
+ADVANCE_SPEC = r'''
         requires old(self).left_ended && old(self).right_ended,
         ensures
             final(self).left_ended == old(self).left_ended, final(self).right_ended == old(self).right_ended,
             final(self).variant == old(self).variant, final(self).prev == old(self).prev,
             final(self).keyer1 == old(self).keyer1, final(self).keyer2 == old(self).keyer2,
-            final(self).buffer@.len() == 0 ==> final(self).left@.len() == 0 && final(self).right@.len() == 0,
-    { unimplemented!() }
-}
+            // the merge only consumes: what is left of a side is a prefix of what it was; tuples are only appended
+            final(self).left@.len() <= old(self).left@.len() && final(self).left@ == old(self).left@.take(final(self).left@.len() as int),      // #obl:sort_merge.merge_only_consumes_the_left_side_from_the_top
+            final(self).right@.len() <= old(self).right@.len() && final(self).right@ == old(self).right@.take(final(self).right@.len() as int),  // #obl:sort_merge.merge_only_consumes_the_right_side_from_the_top
+            final(self).buffer@.len() >= old(self).buffer@.len() && final(self).buffer@.take(old(self).buffer@.len() as int) == old(self).buffer@, // #obl:sort_merge.merge_only_appends_tuples
+            // it stops with an empty buffer only when both sides are exhausted (so nothing is left behind at FlushAndRestart)
+            final(self).buffer@.len() == 0 ==> final(self).left@.len() == 0 && final(self).right@.len() == 0,                                   // #obl:sort_merge.merge_runs_until_a_tuple_is_ready_or_both_sides_are_exhausted
+            // every tuple it appends is a matched pair with both sides present, or a padded left / right element
+            forall|t: int| old(self).buffer@.len() <= t < final(self).buffer@.len() ==>
+                ((#[trigger] final(self).buffer@[t]).1.0 is Some || final(self).buffer@[t].1.1 is Some)
+                && (final(self).buffer@[t].1.0 is None ==> old(self).variant is Outer)
+                && (final(self).buffer@[t].1.1 is None ==> (old(self).variant is Left || old(self).variant is Outer)),                      // #obl:sort_merge.padded_tuples_only_for_the_outer_variants
+            // ... and is built from elements of the two sides that carry the tuple's key: a matched pair joins EQUAL keys
+            forall|t: int| old(self).buffer@.len() <= t < final(self).buffer@.len() ==> Self::from_inputs(#[trigger] final(self).buffer@[t], old(self).left@, old(self).right@),   // #obl:sort_merge.every_tuple_joins_elements_of_the_two_sides_with_the_same_key
 '''
 DISCARD_SPEC = r'''
         requires old(self).right@.len() > 0,
@@ -94,6 +121,7 @@ DISCARD_SPEC = r'''
             final(self).left@ == old(self).left@, final(self).last_left_key == old(self).last_left_key,
             final(self).left_ended == old(self).left_ended, final(self).right_ended == old(self).right_ended,
             final(self).variant == old(self).variant, final(self).prev == old(self).prev,
+            final(self).keyer1 == old(self).keyer1, final(self).keyer2 == old(self).keyer2,
 '''
 NEXT_SPEC = r'''
         requires old(self).inv(),
@@ -111,7 +139,7 @@ NEXT_LOOP = r'''
 
 
 def build(x):
-    pieces = [PRELUDE, S.RUST_PANIC, S.VECDEQUE_IS_EMPTY, x.enum(FO, 'StreamElement'), x.enum(FBIN, 'BinaryElement')]
+    pieces = [S.CLONE_IS_EQ, PRELUDE, 'broadcast use trusted_axioms::axiom_data_clone;\n', S.RUST_PANIC, S.VECDEQUE_IS_EMPTY, x.enum(FO, 'StreamElement'), x.enum(FBIN, 'BinaryElement')]
     jv = x.enum(FJ, 'JoinVariant'); jv.text = '#[derive(Clone, Copy)]\n' + jv.text
     lo = x.method(FJ, 'JoinVariant', 'left_outer'); lo.name_result('r'); lo.add_spec('        ensures r == (self is Left || self is Outer),   // #obl:variant.left_outer\n')
     ro = x.method(FJ, 'JoinVariant', 'right_outer'); ro.name_result('r'); ro.add_spec('        ensures r == (self is Outer),   // #obl:variant.right_outer\n')
@@ -138,11 +166,53 @@ def build(x):
     nx.add_spec(NEXT_SPEC)
     nx.text = '#[verifier::exec_allows_no_decreases_clause]\n' + nx.text
     nx.add_loop_spec(1, NEXT_LOOP)
-    # the ASSUMED contract of `advance` was written for the body with this hash: if the body changes, a failure of next()
-    # may be due to the stale assumption rather than to the code -> undecided, never an alarm
     adv = x.method(F, 'JoinLocalSortMerge', 'advance')
-    if rsx_sha(adv.orig) != ADVANCE_SHA:
-        nx._lost('assumed contract of advance(): its body changed (sha ' + rsx_sha(adv.orig) + ' != ' + ADVANCE_SHA + ')')
-    x.fragments.remove(adv) if adv in getattr(x, 'fragments', []) else None
-    pieces += [HDR, dr, nx, "}"]
+    adv.add_spec(ADVANCE_SPEC)
+    adv.text = '#[verifier::exec_allows_no_decreases_clause]\n' + adv.text
+    FRAME = ("self.variant == old(self).variant, self.left_ended == old(self).left_ended, self.right_ended == old(self).right_ended, self.prev == old(self).prev, "
+             "self.keyer1 == old(self).keyer1, self.keyer2 == old(self).keyer2")
+    BUF = "self.buffer@.len() >= B0.len() && self.buffer@.take(B0.len() as int) == B0, Self::tuples_ok(self.buffer@, B0.len() as int, old(self).variant, L0, R0)"
+    nows = lambda t: re.sub(r'\s+', '', t)
+    # T1: `let n = X.iter().rev().take_while(|(a, _)| P).count();` -> count loop from the top (P verbatim)
+    adv.sub('V-ITER', r'let (?P<n>\w+) = (?P<x>self\s*\.\s*\w+)\s*\.iter\(\)\s*\.rev\(\)\s*\.take_while\(\|\((?P<a>\w+), _\)\| (?P<p>[^)]*?)\)\s*\.count\(\);',
+            lambda m: (f"let mut {m.group('n')}: usize = 0;\n                loop\n                    invariant {m.group('n')} <= {nows(m.group('x'))}@.len(),\n"
+                       f"                {{ if {m.group('n')} >= {nows(m.group('x'))}.len() {{ break; }} let {m.group('a')} = &{nows(m.group('x'))}[{nows(m.group('x'))}.len() - 1 - {m.group('n')}].0; if !({m.group('p')}) {{ break; }} {m.group('n')} += 1; }};"),
+            detail='`let n = X.iter().rev().take_while(|(a, _)| P).count();` -> loop counting from the last element while P holds (P verbatim)', flags=re.S, must=True)
+    # T2: `for _ in 0..n { S }` -> while loop
+    adv.sub('V-ITER', r'for _ in 0\.\.(?P<n>\w+) \{\s*(?P<s>[^{}]*?)\s*\}',
+            lambda m: (f"{{ let mut __j: usize = 0; let ghost __r1 = self.right@;\n                while __j < {m.group('n')}\n"
+                       f"                    invariant __j <= {m.group('n')}, {m.group('n')} <= __r1.len(), self.right@ == __r1.take(__r1.len() - __j), __r1.len() <= R0.len() && __r1 == R0.take(__r1.len() as int), self.left@ == __l_in, self.last_left_key == __k_in, {FRAME},\n                        {BUF},\n"
+                       f"                {{ let ghost __rl = self.right@.len() - 1; proof {{ assert(self.right@[__rl] == R0[__rl]); }} {m.group('s')} __j += 1; proof {{ assert(self.right@ =~= __r1.take(__r1.len() - __j)); assert(self.buffer@.take(B0.len() as int) =~= B0); }} }}\n"
+                       f"                proof {{ assert(self.right@ =~= R0.take(self.right@.len() as int)); }} }};"),
+            detail='`for _ in 0..n { S }` -> while loop (S verbatim)', flags=re.S, must=True)
+    # T3: `matches!(X.last(), Some((a, _)) if P)` -> match on the last element (P verbatim)
+    adv.sub('V-PAT', r'matches!\((?P<x>[\w\.]+)\.last\(\), Some\(\((?P<a>\w+), _\)\) if (?P<p>[^)]*?)\)',
+            lambda m: f"(match {m.group('x')}.last() {{ Some(__p) => {{ let {m.group('a')} = &__p.0; {m.group('p')} }} None => false }})",
+            detail='`matches!(X.last(), Some((a, _)) if P)` -> `match X.last() { Some(p) => { let a = &p.0; P } None => false }`', must=True)
+    # T4: `let m = X.iter().rev().take_while(|(a, _)| P).map(|(_, b)| { E }); Q.extend(m);` -> loop pushing E from the top while P holds
+    adv.sub('V-ITER', r'let (?P<m>\w+) = (?P<x>self\s*\.\s*\w+)\s*\.iter\(\)\s*\.rev\(\)\s*\.take_while\(\|\((?P<a>\w+), _\)\| (?P<p>[^)]*?)\)\s*\.map\(\|\(_, (?P<b>\w+)\)\| \{(?P<e>.*?)\}\);\s*(?P<q>self\.\w+)\.extend\((?P=m)\);',
+            lambda m: (f"{{ let mut __t: usize = 0; let ghost __r2 = self.right@;\n                    loop\n"
+                       f"                        invariant __t <= self.right@.len(), self.right@ == __r2, __r2.len() <= R0.len() && __r2 == R0.take(__r2.len() as int), 0 <= __li < L0.len() && L0[__li] == (lkey, lvalue), Key::obeys_eq_spec(), forall|a: Key, b: Key| #[trigger] a.eq_spec(&b) == (a == b), self.left@ == __l_in, self.last_left_key == __k_in, {FRAME},\n                            {BUF},\n"
+                       f"                    {{ if __t >= {nows(m.group('x'))}.len() {{ break; }} let __p = &{nows(m.group('x'))}[{nows(m.group('x'))}.len() - 1 - __t]; let {m.group('a')} = &__p.0; if !({m.group('p')}) {{ break; }} let {m.group('b')} = &__p.1;\n"
+                       f"                        let __x = {{{m.group('e')}}}; let ghost __rj = {nows(m.group('x'))}@.len() - 1 - __t; {m.group('q')}.push_back(__x); __t += 1; proof {{ assert(self.buffer@.take(B0.len() as int) =~= B0); assert(R0[__rj] == __r2[__rj]); assert(L0[__li] == (__x.0, __x.1.0->0));   // #obl:sort_merge.a_matched_pair_carries_the_current_left_element\n assert(R0[__rj] == (__x.0, __x.1.1->0));   // #obl:sort_merge.a_matched_pair_joins_equal_keys\n assert(Self::from_inputs(__x, L0, R0)); }} }} }};"),
+            detail='`let m = X.iter().rev().take_while(|(a, _)| P).map(|(_, b)| { E }); Q.extend(m);` -> loop from the last element while P holds, pushing E (P, E verbatim)', flags=re.S, must=True)
+    adv.insert_at_body_start("\n        let ghost L0 = self.left@; let ghost R0 = self.right@; let ghost B0 = self.buffer@;\n        proof { assert(L0.take(L0.len() as int) =~= L0); assert(R0.take(R0.len() as int) =~= R0); assert(B0.take(B0.len() as int) =~= B0); }")
+    adv.insert_after(re.compile(r'if let Some\(\(\w+, \w+\)\) = self\.left\.pop\(\) \{'), "\n                let ghost __l_in = self.left@; let ghost __k_in = self.last_left_key; let ghost __li = self.left@.len() as int;\n                proof { axiom_key_eq::<Key>(); assert(__l_in =~= L0.take(__l_in.len() as int)); assert(L0[__li] == (lkey, lvalue)); }")
+    OUTER = f"""
+            invariant
+                {FRAME},
+                self.left@.len() <= L0.len() && self.left@ == L0.take(self.left@.len() as int),
+                self.right@.len() <= R0.len() && self.right@ == R0.take(self.right@.len() as int),
+                {BUF},
+"""
+    LAST = f"""
+                    invariant
+                        {FRAME}, self.left@ == L0.take(self.left@.len() as int) && self.left@.len() <= L0.len(),
+                        self.right@.len() <= R0.len() && self.right@ == R0.take(self.right@.len() as int),
+                        {BUF},
+"""
+    adv.add_loop_spec(5, LAST)
+    adv.add_loop_spec(1, OUTER)
+    adv.sub('V-SPEC', r'(while !self\.right\.is_empty\(\)[^{]*\{)\s*self\.discard_right\(\);', r'\1 let ghost __rl = self.right@.len() - 1; proof { assert(self.right@[__rl] == R0[__rl]); } self.discard_right(); proof { assert(self.right@ =~= R0.take(self.right@.len() as int)); assert(self.buffer@.take(B0.len() as int) =~= B0); }', detail='proof hints in the final discard loop', flags=re.S)
+    pieces += [HDR, dr, adv, nx, "}"]
     return pieces
